@@ -1,4 +1,6 @@
 SPECIFICATION Spec
-CONSTANT MaxBits = 14
+CONSTANTS
+  ExactFitOK = TRUE
+  MaxBits = 17
 INVARIANTS StuffOK SelOK
 CHECK_DEADLOCK FALSE
